@@ -297,7 +297,7 @@ def parse_rvalue(s):
 
 # ----------------------------------------------------------------------------- functions
 class Fn:
-    __slots__ = ('raw', 'name', 'impl_span', 'args', 'ret', 'decl', 'blocks', 'spans', 'key', 'file', 'header', 'cleanup', 'body_span')
+    __slots__ = ('raw', 'name', 'impl_span', 'args', 'ret', 'decl', 'blocks', 'spans', 'key', 'file', 'header', 'cleanup', 'body_span', 'statics')
 
     def __init__(self, raw, header):
         self.raw, self.header = raw, header
@@ -305,6 +305,7 @@ class Fn:
         self.impl_span = None
         self.key = None
         self.body_span = None      # span of the return place = span of the fn / closure body
+        self.statics = []          # (static name, type of the reference) the body refers to
 
 
 _STMT_SKIP = re.compile(r'^(StorageLive|StorageDead|nop|PlaceMention|FakeRead|AscribeUserType|Retag|Coverage|ConstEvalCounter|'
@@ -514,6 +515,19 @@ def load(path, src_root, crate):
             body = lines[i + 1:j]
             fn = _parse_fn(header, body)
             if fn is not None:
+                # statics the body refers to: `const {allocN: &T}` operands, named by the `allocN (static: NAME, ..)` lines printed after the body
+                refs = {}
+                for bl in body:
+                    for mm in re.finditer(r'const \{(alloc\d+): (&[^}]*)\}', bl.split(' // ')[0]):
+                        refs[mm.group(1)] = mm.group(2).strip()
+                names = {}
+                jj = j + 1
+                while jj < n and not re.match(r'^(fn |static |const |promoted)', lines[jj]):
+                    mm = re.match(r'^(alloc\d+) \(static: ([^,)]+)', lines[jj])
+                    if mm:
+                        names[mm.group(1)] = mm.group(2).strip()
+                    jj += 1
+                fn.statics = [(names[a], t) for a, t in refs.items() if a in names]
                 prog.fns.setdefault(fn.raw, []).append(fn)
                 prog.by_last.setdefault(fn.name.split('::')[-1] if not fn.name.endswith('}') else fn.name, []).append(fn)
             i = j
